@@ -126,6 +126,7 @@ fn xor(a: &Mat, b: &Mat) -> Mat {
     a.iter().zip(b.iter()).map(|(r, s)| r.iter().zip(s.iter()).map(|(x, y)| x ^ y).collect()).collect()
 }
 
+#[derive(Clone)]
 /// Incremental model; `blocks` (message blocks compressed so far) may be overwritten.
 pub struct Groestl<'a> {
     t: &'a Tables,
